@@ -1298,6 +1298,7 @@ fn gen_c11(seed: u64, idx: usize, _tier: Tier) -> (RunScenario, C11Extra) {
         if opts.args.is_empty() {
             opts.args.push("solo".into());
         }
+        opts.args_first = rng.chance(1, 2);
         // clap would take a leading '-' value as a flag; the documented form passes plain values
         for a in opts.args.iter_mut() {
             if a.starts_with('-') {
